@@ -44,7 +44,8 @@ def prove_matches(src_root, ex: Explorer):
         shape = shapes[ctx.choose(len(shapes), 'fields')]
         conn_is_peer = ctx.choose(2, 'conn') == 1
         exp_is_peer = ctx.choose(2, 'expected-conn') == 1
-        same_msg = ctx.choose(2, 'msg-class') == 1
+        msg_kind = ['other', 'same', 'other-class-same-id'][ctx.choose(3, 'msg-class')]
+        same_msg = msg_kind == 'same'
         peer_given = ctx.choose(2, 'peer') == 1
         SC, PC = cls(it, CONN, 'ServerConnection'), cls(it, CONN, 'PeerConnection')
         M1 = cls(it, 'protocol.messages', 'GetPeerAddress.Response')
@@ -53,7 +54,11 @@ def prove_matches(src_root, ex: Explorer):
         uname = Sym(ctx.fresh_str('conn_user'), 'str')
         conn.attrs['username'] = uname
         peer = Sym(ctx.fresh_str('peer'), 'str') if peer_given else None
-        msg = Obj(M1 if same_msg else M2)
+        # message ids are only unique per family: a distributed message carries the same id as this server message
+        M3 = cls(it, 'protocol.messages', 'DistributedSearchRequest.Request')
+        if msg_kind == 'other-class-same-id' and unbox(it.getattr(M3, 'MESSAGE_ID')) != unbox(it.getattr(M1, 'MESSAGE_ID')):
+            raise Unsupported('C12.matches: the pair of message classes with equal MESSAGE_ID is gone')
+        msg = Obj({'same': M1, 'other': M2, 'other-class-same-id': M3}[msg_kind])
         a_val, b_val = Sym(ctx.fresh_int('a'), 'int'), Sym(ctx.fresh_str('b'), 'str')
         msg.attrs.update(a=a_val, b=b_val)
         exp_a, exp_b = Sym(ctx.fresh_int('ea'), 'int'), Sym(ctx.fresh_str('eb'), 'str')
@@ -255,10 +260,18 @@ def prove_registration(src_root, ex: Explorer):
             f = new(it, NET, 'ExpectedResponse')
             it.call(it.getattr(net, site), [f], {})
         elif site == 'create_server_response_future':
+            prior = it.call(it.getattr(net, site), [M1], {'fields': {'a': 1}})
             f = it.call(it.getattr(net, site), [M1], {'fields': {'a': 1}})
         else:
+            prior = it.call(it.getattr(net, site), ['peer', M1], {})
             f = it.call(it.getattr(net, site), ['peer', M1], {})
         lst = net.attrs['_expected_response_futures']
+        if site != 'register_response_future':
+            # two callers waiting for the same message each own a future: the timeout or cancellation of one caller cancels ITS future
+            # (C12.wait_for_*), which must not be the future another caller is waiting on
+            ctx.prove(f'C12.registration.{site}.own-future', f is not prior and lst.count(prior) == 1 and lst.count(f) == 1,
+                      'a second identical request got the future of the first one: cancelling one caller cancels the other')
+            lst.remove(prior)
         cbs = f.ghost['future'].callbacks
         ok = lst.count(f) == 1 and len(cbs) == 1 and isinstance(cbs[0], Bound) and cbs[0].self_val is net and \
             cbs[0].func.node.name == '_remove_response_future' and it.aio.yields == []
@@ -389,8 +402,76 @@ def prove_transfer_waiters(src_root, ex: Explorer):
     ex.run(path, 'transfer-waiters')
 
 
+# Which fields of a reply identify the request it answers (reading of "carries the expected field values" per command; the reply classes
+# and their identifying fields are protocol facts: a room message is echoed with room, sender and text, a ticker with room, user and text,
+# peer replies carry no user name and are tied to the peer through the connection).  (connection class, reply class, fields, peer given)
+COMMAND_REPLIES = {
+    'GetUserStatusCommand': ('ServerConnection', 'GetUserStatus.Response', ['username'], False),
+    'GetUserStatsCommand': ('ServerConnection', 'GetUserStats.Response', ['username'], False),
+    'GetRoomListCommand': ('ServerConnection', 'RoomList.Response', [], False),
+    'JoinRoomCommand': ('ServerConnection', 'JoinRoom.Response', ['room'], False),
+    'LeaveRoomCommand': ('ServerConnection', 'LeaveRoom.Response', ['room'], False),
+    'GrantRoomMembershipCommand': ('ServerConnection', 'PrivateRoomGrantMembership.Response', ['room', 'username'], False),
+    'RevokeRoomMembershipCommand': ('ServerConnection', 'PrivateRoomRevokeMembership.Response', ['room', 'username'], False),
+    'DropRoomMembershipCommand': ('ServerConnection', 'PrivateRoomMembershipRevoked.Response', ['room'], False),
+    'GetItemRecommendationsCommand': ('ServerConnection', 'GetItemRecommendations.Response', ['item'], False),
+    'GetRecommendationsCommand': ('ServerConnection', 'GetRecommendations.Response', [], False),
+    'GetGlobalRecommendationsCommand': ('ServerConnection', 'GetGlobalRecommendations.Response', [], False),
+    'GetItemSimilarUsersCommand': ('ServerConnection', 'GetItemSimilarUsers.Response', ['item'], False),
+    'GetSimilarUsersCommand': ('ServerConnection', 'GetSimilarUsers.Response', [], False),
+    'GetPeerAddressCommand': ('ServerConnection', 'GetPeerAddress.Response', ['username'], False),
+    'GrantRoomOperatorCommand': ('ServerConnection', 'PrivateRoomGrantOperator.Response', ['room', 'username'], False),
+    'RevokeRoomOperatorCommand': ('ServerConnection', 'PrivateRoomRevokeOperator.Response', ['room', 'username'], False),
+    'TogglePrivateRoomInvitesCommand': ('ServerConnection', 'TogglePrivateRoomInvites.Response', ['enabled'], False),
+    'RoomMessageCommand': ('ServerConnection', 'RoomChatMessage.Response', ['message', 'room', 'username'], False),
+    'SetRoomTickerCommand': ('ServerConnection', 'RoomTickerAdded.Response', ['room', 'ticker', 'username'], False),
+    'GetUserInterestsCommand': ('ServerConnection', 'GetUserInterests.Response', ['username'], False),
+    'CheckPrivilegesCommand': ('ServerConnection', 'CheckPrivileges.Response', [], False),
+    'TrackUserCommand': ('ServerConnection', 'AddUser.Response', ['username'], False),
+    'PeerGetUserInfoCommand': ('PeerConnection', 'PeerUserInfoReply.Request', [], True),
+    'PeerGetSharesCommand': ('PeerConnection', 'PeerSharesReply.Request', [], True),
+    'PeerGetDirectoryContentCommand': ('PeerConnection', 'PeerDirectoryContentsReply.Request', ['directory', 'ticket'], True),
+}
+
+
+def scan_command_replies(src_root, ex: Explorer):
+    """C12.command.expected[<Command>]: the ExpectedResponse a command builds names the reply class of the table, on the right kind of
+    connection, is tied to the peer where the table says so, and constrains AT LEAST the identifying fields of the table (a matcher with
+    fewer fields is completed by messages that answer somebody else's request)."""
+    src, _ = source(src_root)
+    mod = src.module('commands')
+
+    def path(ctx: Ctx):
+        seen = 0
+        for c in mod.tree.body:
+            if not isinstance(c, ast.ClassDef) or c.name not in COMMAND_REPLIES:
+                continue
+            fn = [f for f in c.body if isinstance(f, ast.FunctionDef) and f.name == 'build_expected_response']
+            if not fn:
+                continue
+            calls = [n for n in ast.walk(fn[0]) if isinstance(n, ast.Call) and ast.unparse(n.func) == 'ExpectedResponse']
+            if len(calls) != 1:
+                raise Unsupported(f'{c.name}.build_expected_response: {len(calls)} ExpectedResponse(...) calls (the scan reads exactly one)')
+            call = calls[0]
+            kw = {k.arg: k.value for k in call.keywords}
+            args = [ast.unparse(a) for a in call.args]
+            conn = args[0] if args else ast.unparse(kw.get('connection_class', ast.Constant(None)))
+            msg = args[1] if len(args) > 1 else ast.unparse(kw.get('message_class', ast.Constant(None)))
+            fields = kw.get('fields')
+            if fields is not None and not isinstance(fields, ast.Dict):
+                raise Unsupported(f'{c.name}.build_expected_response: fields is not a dictionary display')
+            keys = sorted(k.value for k in fields.keys if isinstance(k, ast.Constant)) if fields is not None else []
+            w_conn, w_msg, w_fields, w_peer = COMMAND_REPLIES[c.name]
+            seen += 1
+            ctx.prove(f'C12.command.expected[{c.name}]', conn == w_conn and msg == w_msg and set(w_fields) <= set(keys) and (('peer' in kw) or not w_peer),
+                      f'{c.name} waits for {msg} on {conn} with fields {keys}{", peer" if "peer" in kw else ""}; the reply that answers it is '
+                      f'{w_msg} on {w_conn} with at least {w_fields}{", from that peer" if w_peer else ""}')
+        ctx.prove('C12.command.expected.scan-nonempty', seen >= 20, f'{seen} commands with a reply found')
+    ex.run(path, 'command-replies')
+
+
 def items(src_root, tier):
-    return [('negotiation', None), ('matches', None), ('omr', None), ('wait', 'server'), ('wait', 'peer'), ('registration', None), ('execute', None)]
+    return [('commands', None), ('negotiation', None), ('matches', None), ('omr', None), ('wait', 'server'), ('wait', 'peer'), ('registration', None), ('execute', None)]
 
 
 def run_item(src_root, item, tier):
@@ -410,6 +491,8 @@ def run_item(src_root, item, tier):
             prove_registration(src_root, ex)
         elif kind == 'execute':
             prove_execute(src_root, ex)
+        elif kind == 'commands':
+            scan_command_replies(src_root, ex)
     except Unsupported as e:
         res.errors.append(f'{kind}:{arg}: unsupported: {e}')
     collect(res, ex)
